@@ -24,6 +24,7 @@ structure BlkSess where
   h : Handler
   now : Nat
   last : Option Request
+  held : Option Request := none
 
 def respTok (r : Request) : String :=
   match r.response with | some p => dumpPacket p | none => "none"
@@ -61,6 +62,11 @@ def blkOp (s : BlkSess) (op : String) : BlkSess × String :=
       ({ s with h := h', last := some req' },
        s!"A {outcomeTok r} {respTok req'} {peekTok h' s.now (keyOf req')}")
     | _, _ => ({ s with last := none }, "A skip")
+  | ["swap"] => ({ s with last := s.held, held := s.last }, "S")
+  | ["appclr", ns] =>
+    let nums := (ns.splitOn ",").map optNum
+    ({ s with last := s.last.map (fun req => { req with response := req.response.map (fun m =>
+        nums.foldl (fun (m : Packet) n => m.clearOption n) m) }) }, "C")
   | "peek" :: ep :: spec =>
     match (buildSpec spec).bind (fun p => Request.fromPacket p (nat! ep)) with
     | .ok req => (s, peekTok s.h s.now (keyOf req))
